@@ -54,7 +54,6 @@ package traversalrecord
 //@ pred atLink(v *Verifier) := len(v.stack) == 0 || len(v.stack) == 1 || v.stack[len(v.stack) - 1].link != nil
 //@ pred recOK() := treeShape() && leavesLinked()
 
-
 //@ func Verifier.tip
 //@   requires v != nil
 //@   modifies nothing
